@@ -241,6 +241,11 @@ func (i *interpreter) indexAddr(instr *ssa.IndexAddr, x, idx value) value {
 			_, signed, _ := intInfo(instr.Index.Type())
 			return &symPtr{elems: elems, idx: i.ctx.Resize(it, 64, signed), elemT: elemT}
 		}
+		if loadOnly(instr) {
+			if p := i.groupedElem(elems, it, instr.Index.Type()); p != nil {
+				return p
+			}
+		}
 		k := i.asIndex(idx, instr.Index.Type())
 		return &elems[k]
 	}
@@ -249,6 +254,92 @@ func (i *interpreter) indexAddr(instr *ssa.IndexAddr, x, idx value) value {
 		panic(targetPanic{i.runtimeErr(fmt.Sprintf("index out of range [%d] with length %d", k, len(elems)))})
 	}
 	return &elems[k]
+}
+
+// loadOnly: the address computed by instr is only ever loaded from.
+func loadOnly(instr *ssa.IndexAddr) bool {
+	refs := instr.Referrers()
+	if refs == nil || len(*refs) == 0 {
+		return false
+	}
+	for _, r := range *refs {
+		u, ok := r.(*ssa.UnOp)
+		if !ok || u.Op != token.MUL {
+			return false
+		}
+	}
+	return true
+}
+
+// groupedElem handles table[idx] for a symbolic idx and non-scalar elements (slices, strings,
+// pointers): indices holding the same element are grouped, and the path forks once per distinct
+// element instead of once per index.
+func (i *interpreter) groupedElem(elems []value, idx *smt.Term, it types.Type) *value {
+	if len(elems) > 1024 {
+		return nil
+	}
+	type group struct {
+		first int
+		idxs  []int
+	}
+	var order []string
+	groups := map[string]*group{}
+	for k, e := range elems {
+		var key string
+		switch x := e.(type) {
+		case []value:
+			if x == nil || len(x) == 0 {
+				key = fmt.Sprintf("s:nil:%v", x == nil)
+			} else {
+				key = fmt.Sprintf("s:%p:%d", &x[0], len(x))
+			}
+		case string:
+			key = "str:" + x
+		case *value:
+			key = fmt.Sprintf("p:%p", x)
+		case iface:
+			if x.t != nil {
+				return nil
+			}
+			key = "iface:nil"
+		default:
+			return nil
+		}
+		g := groups[key]
+		if g == nil {
+			g = &group{first: k}
+			groups[key] = g
+			order = append(order, key)
+		}
+		g.idxs = append(g.idxs, k)
+	}
+	if len(order) > 32 {
+		return nil
+	}
+	c := i.ctx
+	_, signed, _ := intInfo(it)
+	x := c.Resize(idx, 64, signed)
+	// smallest groups first, the largest group is the default
+	largest := order[0]
+	for _, k := range order {
+		if len(groups[k].idxs) > len(groups[largest].idxs) {
+			largest = k
+		}
+	}
+	for _, k := range order {
+		if k == largest {
+			continue
+		}
+		g := groups[k]
+		cond := c.False
+		for _, ix := range g.idxs {
+			cond = c.Or(cond, c.Eq(x, c.BV(uint64(ix), 64)))
+		}
+		if i.truth(normBool(cond)) {
+			return &elems[g.first]
+		}
+	}
+	return &elems[groups[largest].first]
 }
 
 func (i *interpreter) symLoad(p *symPtr, t types.Type) value {
